@@ -155,7 +155,7 @@ def relevant_disagreement(pid, rec, d):
     the model function behind the disagreeing observation - the same attribution as for the judge's failures."""
     return pid in properties_of_failure(rec, d)
 
-CLASS_CODES = {"marker_tail": 1, "cache_realign": 2, "create_residue": 3}
+CLASS_CODES = {"marker_tail": 1, "cache_realign": 2, "create_residue": 3, "early_full": 4}
 
 def governing_class(rec, j):
     """class code the judge computed for the most recent new/open at or before op j. The cache_realign class is
